@@ -109,8 +109,9 @@ PLex(t) == /\ pc[t] = "lex"
               ELSE /\ toks' = [toks EXCEPT ![t] = Append(@, Input[PosOf(t)])] /\ SetPos(t, PosOf(t) + 1) /\ pc' = pc
            /\ err' = err /\ UNCHANGED ParVars
 
-Next == \E t \in T : SReset(t) \/ SOuter(t) \/ SPop(t) \/ SAssign(t) \/ SMark(t) \/ SAssert(t) \/ SCleanup(t)
-                     \/ CStart(t) \/ CRefine(t) \/ PStart(t) \/ PLex(t)
+StepOf(t) == SReset(t) \/ SOuter(t) \/ SPop(t) \/ SAssign(t) \/ SMark(t) \/ SAssert(t) \/ SCleanup(t)
+             \/ CStart(t) \/ CRefine(t) \/ PStart(t) \/ PLex(t)
+Next == \E t \in T : StepOf(t)
 Spec == Init /\ [][Next]_vars
 
 \* ---------------------------------------------------------------- every completed operation returns its sequential result
